@@ -198,6 +198,30 @@ def gen_programs(ctx):
                 [["hold:1:2"], ["copy:1"], ["code:1"]], [["hold:1:2", "hold:1:3"], ["copy:1"]], [["hold:1:2"], ["hold:2:3"], ["copy:1", "copy:2"]],
                 [["hold:1:2", "hold:1:3"], ["copy:1", "code:1"]], [["hold:1:4"], ["copy:1"], ["copy:1"]]):
         P.append(fmt_prog("bwsend", [], ths, ["copy:1", "code:1"]))
+    #     obstab = net/observation's table of observations (reg = NewObservation, cancel = Observation.Cancel on the first
+    #              observation registered under the key: "removed it and sent the deregistration" is LoadAndDelete's result,
+    #              has = GetObservation): concurrent cancels of one observation have exactly one winner
+    for pre, ths, post in (
+            (["reg:1:5"], [["cancel:1"], ["cancel:1"]], ["has:1"]),
+            (["reg:1:5"], [["cancel:1"], ["cancel:1"]], ["reg:1:7", "has:1"]),
+            (["reg:1:5"], [["cancel:1"], ["cancel:1"], ["cancel:1"]], ["has:1"]),
+            (["reg:1:5"], [["cancel:1"], ["cancel:1"], ["has:1"]], ["has:1"]),
+            (["reg:1:5", "reg:2:6"], [["cancel:1", "cancel:2"], ["cancel:2", "cancel:1"]], ["has:1", "has:2"]),
+            (["reg:1:5"], [["cancel:1"], ["reg:2:6", "cancel:1"]], ["has:1", "has:2"]),
+            (["reg:1:5"], [["cancel:1", "has:1"], ["has:1", "cancel:1"]], ["has:1"])):
+        P.append(fmt_prog("obstab", pre, ths, post))
+    #     bwrecv = net/blockwise's reassembly table, an expiring cache (clos = getCachedReceivedMessage for a first block: the
+    #              store-if-absent of the entry; cload = processReceivedMessage's look-up; sweep = BlockWise.CheckExpirations):
+    #              an expired entry that has not been swept yet is absent for the store-if-absent as well
+    for pre, ths, post in (
+            (["clos:1:5@3", "tick:10"], [["clos:1:6@110"], ["cload:1"]], ["sweep", "cload:1"]),
+            (["clos:1:5@3", "tick:10"], [["clos:1:6@110"], ["clos:1:7@110"]], ["cload:1"]),
+            (["clos:1:5@3", "tick:10"], [["clos:1:6@110"], ["sweep"]], ["cload:1"]),
+            (["clos:1:5@3", "tick:3"], [["clos:1:6@110"], ["cload:1"]], ["cload:1"]),
+            (["clos:1:5@300", "tick:10"], [["clos:1:6@310"], ["cload:1"]], ["sweep", "cload:1"]),
+            ([], [["clos:1:6@110"], ["clos:1:7@110"]], ["cload:1"]),
+            ([], [["clos:1:6@110", "cload:2"], ["clos:2:7@110", "cload:1"]], ["tick:200", "cload:1", "sweep", "cload:2"])):
+        P.append(fmt_prog("bwrecv", pre, ths, post))
     # 5. random programs: 2-3 threads x 1-3 operations on 1-2 keys
     n = 6000 if thorough else 500
     for i in range(n):
@@ -258,10 +282,17 @@ def nontrivial(history):
     return False
 
 
+# wrapper kinds whose operations are more than one step of the table (or hold its lock across a scheduling point): their
+# histories are judged against the sequential specification, not replayed on the step model
+JUDGE_ONLY = ("bwsend", "obstab", "bwrecv")
+
+
 def clause_of(prog):
     ops = re.findall(r"[=,]([a-z0-9]+)(?=[:,\s]|$)", prog)
     if prog.split()[1] == "bwsend":
         return "callbacks-see-current-value"
+    if prog.split()[1] in ("obstab", "bwrecv"):
+        return "store-if-absent"
     if "sweep" in ops:
         return "sweep-only-expired"
     if any(o in ops for o in ("los", "clos", "loswf")):
@@ -356,7 +387,13 @@ def explore(ctx, art, coop):
         hist.setdefault(h, (p, s))
     hs = list(hist)
     judge = drive(art["driver"], "judge", ["x | " + h for h in hs])
-    model = drive(art["driver"], "model", [p + " || " + s for p, s in runs])
+    replayed = [i for i, (p, _) in enumerate(runs) if p.split()[1] not in JUDGE_ONLY]
+    mres = drive(art["driver"], "model", [runs[i][0] + " || " + runs[i][1] for i in replayed])
+    model = None
+    if mres is not None:
+        model = ["judged only"] * len(runs)
+        for i, m in zip(replayed, mres):
+            model[i] = m
     if judge is None or model is None:
         ctx.broken.append(("model", "C14 driver run failed", ""))
         return
@@ -389,9 +426,10 @@ def explore(ctx, art, coop):
     for (p, s), m in zip(runs, model):
         if m == "ok":
             ok += 1
-        elif p.split()[1] == "bwsend":
-            # getSentRequest holds the read lock across a scheduling point (the client's AcquireMessage inside the callback);
-            # the step model has no lock held across steps: these histories are judged, not replayed
+        elif p.split()[1] in JUDGE_ONLY:
+            # getSentRequest holds the read lock across a scheduling point (the client's AcquireMessage inside the callback),
+            # NewObservation / Cancel / getCachedReceivedMessage do more than the one table step; the step model has neither:
+            # these histories are judged, not replayed
             ctx.count("wrapper schedules judged only (lock held across a scheduling point)")
         elif "r9:diverged" in s:
             ctx.count("schedules whose re-execution diverged (Go map iteration order)")
